@@ -578,6 +578,12 @@ func (w *World) issuerHeader(key string, roles, defRoles []string, mode, trailer
 		h[key] = []string{val, val}
 	case "empty":
 		h[key] = []string{""}
+	case "novalues": // the key is present, its value list is empty
+		h[key] = []string{}
+	case "nilvalues":
+		h[key] = nil
+	case "three":
+		h[key] = []string{val, val, val}
 	case "badescape":
 		h[key] = []string{val[:len(val)/2] + "%zz" + val[len(val)/2:]}
 	default:
